@@ -1,3 +1,316 @@
-/-! C05 model (stub) -/
+/-!
+# C05 model: exporter retry loop
+
+Mirrors, branch by branch,
+* `exporter/exporterhelper/internal/retry_sender.go` `retrySender.Send` (with the repair of
+  `fix: retry sender: shutdown/cancellation win over a ready back-off timer`: before the blocking
+  `select` the loop polls `stopCh`, then `ctx.Err()`),
+* `exporter/exporterhelper/internal/timeout_sender.go` (per-attempt `context.WithTimeout`),
+* `github.com/cenkalti/backoff/v5` `ExponentialBackOff.NextBackOff`/`incrementCurrentInterval`
+  (no `Reset`: `currentInterval` starts at 0 and is set to `InitialInterval` whenever it is 0),
+* `config/configretry/backoff.go` `Validate`, `TimeoutConfig.Validate`,
+* `logsRequest/tracesRequest/metricsRequest.OnError` (payload := the data named by the error),
+* `consumererror.IsPermanent`, `experr.IsShutdownErr`, `errors.As(err, &throttleRetry{})` as a search
+  over wrap/join error trees.
+
+Time is `Nat` nanoseconds since `Send` was entered.  The multiplier is the fraction `mulNum/mulDen`,
+the randomisation factor `rfNum/rfDen`; the value drawn by the library for `rf ≠ 0` is an input
+(`Attempt.drawn`) with the law `LibLaw`.
+-/
 namespace OtelVerif.C05
+
+/-! ## configuration -/
+
+/-- `configretry.BackOffConfig` + `TimeoutConfig` as written in a config file (may be negative) -/
+structure RawCfg where
+  enabled : Bool
+  initial : Int
+  maxInt : Int
+  maxElapsed : Int
+  mulNum : Int
+  mulDen : Nat
+  rfNum : Int
+  rfDen : Nat
+  timeout : Int
+deriving Repr, DecidableEq
+
+/-- `BackOffConfig.Validate` (returns the index of the failing check, 0 = accepted).
+`mulDen`, `rfDen` are positive denominators of the harness' encoding of the two floats. -/
+def validateBackoff (r : RawCfg) : Nat :=
+  if !r.enabled then 0
+  else if r.initial < 0 then 1
+  else if r.rfNum < 0 ∨ r.rfNum > r.rfDen then 2
+  else if r.mulNum < 0 then 3
+  else if r.maxInt < 0 then 4
+  else if r.maxElapsed < 0 then 5
+  else if r.maxElapsed > 0 then
+    if r.maxElapsed < r.initial then 6
+    else if r.maxElapsed < r.maxInt then 7
+    else 0
+  else 0
+
+/-- `TimeoutConfig.Validate` -/
+def validateTimeout (r : RawCfg) : Bool := !(r.timeout < 0)
+
+structure Cfg where
+  enabled : Bool
+  initial : Nat
+  maxInt : Nat
+  /-- 0 = unlimited -/
+  maxElapsed : Nat
+  mulNum : Nat
+  mulDen : Nat
+  rfNum : Nat
+  rfDen : Nat
+  /-- per-attempt timeout, 0 = no timeout sender -/
+  timeout : Nat
+deriving Repr, DecidableEq
+
+def RawCfg.toCfg (r : RawCfg) : Cfg :=
+  { enabled := r.enabled, initial := r.initial.toNat, maxInt := r.maxInt.toNat, maxElapsed := r.maxElapsed.toNat,
+    mulNum := r.mulNum.toNat, mulDen := r.mulDen, rfNum := r.rfNum.toNat, rfDen := r.rfDen, timeout := r.timeout.toNat }
+
+/-- what `Validate` guarantees, on the `Nat` view -/
+def Cfg.valid (c : Cfg) : Prop :=
+  c.enabled = true → c.rfNum ≤ c.rfDen ∧ (c.maxElapsed > 0 → c.initial ≤ c.maxElapsed ∧ c.maxInt ≤ c.maxElapsed)
+
+/-! ## environment and script -/
+
+/-- absolute instants (ns since `Send` was entered) of the request deadline, of a plain cancellation of the
+request context and of `retrySender.Shutdown` (`close(stopCh)`) -/
+structure Env where
+  deadline : Option Nat := none
+  cancel : Option Nat := none
+  shutdown : Option Nat := none
+deriving Repr, DecidableEq
+
+/-- one backend outcome.  The pusher waits (`dur` ns, or until its context is done when `untilCtx`),
+then returns `nil` when `ok`, else an error that is permanent when `perm`, carries a throttle delay
+when `throttle = some d`, names the undelivered remainder when `rest = some ids`.  `drawn` is what
+`NextBackOff` returned after this attempt (only read when `rf ≠ 0`). -/
+structure Attempt where
+  untilCtx : Bool := false
+  dur : Nat := 0
+  ok : Bool := false
+  perm : Bool := false
+  throttle : Option Nat := none
+  rest : Option (List Nat) := none
+  drawn : Nat := 0
+deriving Repr, DecidableEq
+
+def omin : Option Nat → Option Nat → Option Nat
+  | none, b => b
+  | a, none => a
+  | some a, some b => some (min a b)
+
+/-- instant at which the request context is done (`Done()` closed) -/
+def Env.ctxDone (e : Env) : Option Nat := omin e.deadline e.cancel
+
+/-- instant at which the context handed to the pusher is done: request context, or the timeout
+sender's `context.WithTimeout(ctx, Timeout)` started with the attempt -/
+def attemptCtxDone (c : Cfg) (e : Env) (start : Nat) : Option Nat :=
+  omin e.ctxDone (if c.timeout > 0 then some (start + c.timeout) else none)
+
+/-- when the attempt that started at `start` returns; `none` = it never returns -/
+def finish (c : Cfg) (e : Env) (start : Nat) (a : Attempt) : Option Nat :=
+  if a.untilCtx then (attemptCtxDone c e start).map (fun d => max start d) else some (start + a.dur)
+
+/-! ## back-off library -/
+
+/-- interval used by this `NextBackOff` call: `if currentInterval == 0 { currentInterval = InitialInterval }` -/
+def curInterval (c : Cfg) (cur : Nat) : Nat := if cur = 0 then c.initial else cur
+
+/-- `incrementCurrentInterval`: `if float64(cur) >= float64(Max)/Multiplier { cur = Max } else { cur = Duration(float64(cur)*Multiplier) }`
+over exact fractions (`Multiplier = 0`: the quotient is `+Inf`/`NaN`, the comparison false, the product 0 — the formula below gives 0 too). -/
+def nextCur (c : Cfg) (iv : Nat) : Nat :=
+  if iv * c.mulNum ≥ c.maxInt * c.mulDen then c.maxInt else iv * c.mulNum / c.mulDen
+
+/-- value of the library's `currentInterval` field before the `n`-th `NextBackOff` call -/
+def curSeq (c : Cfg) : Nat → Nat
+  | 0 => 0
+  | n + 1 => nextCur c (curInterval c (curSeq c n))
+
+/-- the un-randomised back-off interval of the `n`-th retry -/
+def interval (c : Cfg) (n : Nat) : Nat := curInterval c (curSeq c n)
+
+/-- `getRandomValueFromInterval`: `rf = 0` returns the interval itself, otherwise the drawn value -/
+def backoffDelay (c : Cfg) (iv : Nat) (a : Attempt) : Nat := if c.rfNum = 0 then iv else a.drawn
+
+/-- law of the drawn value: `trunc(min + random*(max-min+1))` with `random ∈ [0,1)`,
+`min = iv - rf*iv`, `max = iv + rf*iv` (one unit of slack below for the float truncation) -/
+def LibLaw (c : Cfg) (iv : Nat) (drawn : Nat) : Prop :=
+  iv * (c.rfDen - c.rfNum) ≤ (drawn + 1) * c.rfDen ∧ drawn * c.rfDen ≤ iv * (c.rfDen + c.rfNum) + c.rfDen
+
+instance (c iv d) : Decidable (LibLaw c iv d) := by unfold LibLaw; infer_instance
+
+/-- `backoffDelay = max(backoffDelay, throttleErr.delay)` when the error chain holds a `throttleRetry` -/
+def waitOf (c : Cfg) (iv : Nat) (a : Attempt) : Nat :=
+  match a.throttle with
+  | some th => max (backoffDelay c iv a) th
+  | none => backoffDelay c iv a
+
+/-! ## the loop -/
+
+inductive Reason
+  | ok          -- nil
+  | perm        -- "not retryable error: %w"
+  | exhausted   -- "no more retries left: %w"
+  | deadline    -- "request will be cancelled before next retry: %w"
+  | cancelled   -- "request is cancelled or timed out: %w"
+  | shutdown    -- experr.NewShutdownErr(err)
+  | raw         -- retry disabled: the pusher's error as it is
+  | hang        -- the pusher never returns (waits on a context that is never done)
+deriving Repr, DecidableEq
+
+def Reason.toString : Reason → String
+  | .ok => "ok" | .perm => "perm" | .exhausted => "exhausted" | .deadline => "deadline"
+  | .cancelled => "cancelled" | .shutdown => "shutdown" | .raw => "raw" | .hang => "hang"
+
+/-- one call of the next sender: start, return instant, payload (item ids) -/
+structure Call where
+  t : Nat
+  fin : Nat
+  payload : List Nat
+deriving Repr, DecidableEq
+
+structure Trace where
+  calls : List Call
+  reason : Reason
+  tEnd : Nat
+  /-- `consumererror.IsPermanent` of the returned error -/
+  permFlag : Bool := false
+  /-- `experr.IsShutdownErr` of the returned error -/
+  sdFlag : Bool := false
+deriving Repr, DecidableEq
+
+def olt (o : Option Nat) (n : Nat) : Bool := match o with | some x => x < n | none => false
+def ole (o : Option Nat) (n : Nat) : Bool := match o with | some x => x ≤ n | none => false
+
+/-- what happens after a failed, non-permanent attempt that returned at `fin` with planned wait `w`:
+`none` = the timer fires and the loop goes round; `some (reason, instant)` = `Send` returns. -/
+def afterFailure (c : Cfg) (e : Env) (fin w : Nat) : Option (Reason × Nat) :=
+  let next := fin + w
+  if c.maxElapsed > 0 ∧ c.maxElapsed < next then some (.exhausted, fin)      -- maxElapsedTime.Before(nextRetryTime)
+  else if olt e.deadline next then some (.deadline, fin)                      -- deadline.Before(nextRetryTime)
+  else if ole e.shutdown fin then some (.shutdown, fin)                       -- poll stopCh (repair)
+  else if ole e.ctxDone fin then some (.cancelled, fin)                       -- poll ctx.Err() (repair)
+  else
+    -- blocking select: the earliest of shutdown / context done / timer; at equal instants with the
+    -- timer the timer wins, shutdown wins over the context (ties are outside the theorem, DESIGN §C05)
+    match e.shutdown, e.ctxDone with
+    | some s, some d => if s < next ∧ s ≤ d then some (.shutdown, s) else if d < next then some (.cancelled, d) else none
+    | some s, none => if s < next then some (.shutdown, s) else none
+    | none, some d => if d < next then some (.cancelled, d) else none
+    | none, none => none
+
+/-- `retrySender.Send` (or the bare chain when retry is disabled) on a script of backend outcomes.
+An attempt beyond the end of the script succeeds at once. -/
+def run (c : Cfg) (e : Env) : (now cur : Nat) → (payload : List Nat) → List Attempt → Trace
+  | now, _, p, [] => { calls := [⟨now, now, p⟩], reason := .ok, tEnd := now }
+  | now, cur, p, a :: as =>
+    match finish c e now a with
+    | none => { calls := [⟨now, now, p⟩], reason := .hang, tEnd := now }
+    | some fin =>
+      let call : Call := ⟨now, fin, p⟩
+      if a.ok then { calls := [call], reason := .ok, tEnd := fin }
+      else if !c.enabled then { calls := [call], reason := .raw, tEnd := fin, permFlag := a.perm }
+      else if a.perm then { calls := [call], reason := .perm, tEnd := fin, permFlag := true }
+      else
+        let iv := curInterval c cur
+        let w := waitOf c iv a
+        match afterFailure c e fin w with
+        | some (r, t) => { calls := [call], reason := r, tEnd := t, sdFlag := (r == .shutdown) }
+        | none =>
+          let tr := run c e (fin + w) (nextCur c iv) (a.rest.getD p) as
+          { tr with calls := call :: tr.calls }
+
+/-- `Send` entered at instant 0 with a fresh `ExponentialBackOff` -/
+def send (c : Cfg) (e : Env) (payload : List Nat) (script : List Attempt) : Trace := run c e 0 0 payload script
+
+/-! ## error trees (`errors.As` over `Unwrap() error` / `Unwrap() []error`) -/
+
+inductive Err
+  | leaf                                  -- errors.New / ctx.Err()
+  | wrap (e : Err)                        -- fmt.Errorf("…: %w", e)
+  | perm (e : Err)                        -- consumererror.NewPermanent
+  | throttle (d : Nat) (e : Err)          -- NewThrottleRetry
+  | partialData (rest : List Nat) (e : Err)   -- consumererror.NewLogs/NewTraces/NewMetrics (matching signal)
+  | otherSignal (e : Err)                 -- a signal error of a different signal: not seen by OnError
+  | shutdown (e : Err)                    -- experr.NewShutdownErr
+  | join (es : List Err)                  -- errors.Join / multierr.Append
+deriving Repr
+
+mutual
+/-- `errors.As` pre-order search: first node for which `f` answers -/
+def Err.find {α : Type} (f : Err → Option α) : Err → Option α
+  | .leaf => f .leaf
+  | .wrap e => (f (.wrap e)).orElse (fun _ => e.find f)
+  | .perm e => (f (.perm e)).orElse (fun _ => e.find f)
+  | .throttle d e => (f (.throttle d e)).orElse (fun _ => e.find f)
+  | .partialData r e => (f (.partialData r e)).orElse (fun _ => e.find f)
+  | .otherSignal e => (f (.otherSignal e)).orElse (fun _ => e.find f)
+  | .shutdown e => (f (.shutdown e)).orElse (fun _ => e.find f)
+  | .join es => (f (.join es)).orElse (fun _ => Err.findList f es)
+def Err.findList {α : Type} (f : Err → Option α) : List Err → Option α
+  | [] => none
+  | e :: es => (e.find f).orElse (fun _ => Err.findList f es)
+end
+
+def Err.isPermanent (e : Err) : Bool := (e.find (fun n => match n with | .perm _ => some () | _ => none)).isSome
+def Err.isShutdown (e : Err) : Bool := (e.find (fun n => match n with | .shutdown _ => some () | _ => none)).isSome
+def Err.throttleDelay (e : Err) : Option Nat := e.find (fun n => match n with | .throttle d _ => some d | _ => none)
+def Err.remainder (e : Err) : Option (List Nat) := e.find (fun n => match n with | .partialData r _ => some r | _ => none)
+
+/-- the `Attempt` fields the retry loop reads off a returned error -/
+def Attempt.ofErr (e : Err) (dur : Nat) (drawn : Nat := 0) : Attempt :=
+  { dur := dur, ok := false, perm := e.isPermanent, throttle := e.throttleDelay, rest := e.remainder, drawn := drawn }
+
+/-- a wrapper applied around a returned error further up the exporter chain -/
+inductive Wrapper
+  | wrap
+  | joinLeft (others : List Err)    -- errors.Join(others…, e)
+  | joinRight (others : List Err)   -- errors.Join(e, others…)
+deriving Repr
+
+def Wrapper.apply : Wrapper → Err → Err
+  | .wrap, e => .wrap e
+  | .joinLeft os, e => .join (os ++ [e])
+  | .joinRight os, e => .join (e :: os)
+
+/-! ## the search oracle: the property's clauses evaluated on an observed call sequence -/
+
+/-- an observed run: calls `(start, payload)` and the returned error's classification -/
+structure Observed where
+  calls : List (Nat × List Nat)
+  tEnd : Nat
+  isNil : Bool
+  permFlag : Bool
+  sdFlag : Bool
+deriving Repr
+
+/-- upper end of the back-off envelope: `(1+rf)·max(initial, max_interval) + 1` (as a multiple of `rfDen`) -/
+def envelopeHiTimesDen (c : Cfg) : Nat := max c.initial c.maxInt * (c.rfDen + c.rfNum) + c.rfDen
+
+/-- clause by clause; each failing clause yields its signature.  `script[k]` is the backend outcome of call `k`. -/
+def checkObserved (c : Cfg) (e : Env) (payload : List Nat) (script : List Attempt) (o : Observed) : List String :=
+  let n := o.calls.length
+  let idx := List.range n
+  let callAt (k : Nat) : Nat × List Nat := o.calls.getD k (0, [])
+  let att (k : Nat) : Attempt := script.getD k { ok := true }
+  let finOf (k : Nat) : Nat := (finish c e (callAt k).1 (att k)).getD (callAt k).1
+  (if n = 0 then ["C05/retry/no-attempt"] else []) ++
+  (if (callAt 0).2 ≠ payload ∧ n > 0 then ["C05/retry/first-payload-changed"] else []) ++
+  (if !c.enabled ∧ n > 1 then ["C05/retry/retried-while-disabled"] else []) ++
+  (if idx.any (fun k => k + 1 < n ∧ (att k).ok) then ["C05/retry/attempt-after-success"] else []) ++
+  (if idx.any (fun k => k + 1 < n ∧ !(att k).ok ∧ (att k).perm) then ["C05/retry/attempt-after-permanent"] else []) ++
+  (if idx.any (fun k => 0 < k ∧ olt e.shutdown (callAt k).1) then ["C05/retry/attempt-after-shutdown"] else []) ++
+  (if idx.any (fun k => 0 < k ∧ olt e.ctxDone (callAt k).1) then ["C05/retry/attempt-after-context-done"] else []) ++
+  (if idx.any (fun k => 0 < k ∧ c.maxElapsed > 0 ∧ c.maxElapsed < (callAt k).1) then ["C05/retry/attempt-after-elapsed-budget"] else []) ++
+  (if idx.any (fun k => k + 1 < n ∧ (callAt (k + 1)).1 < finOf k + ((att k).throttle.getD 0)) then ["C05/retry/wait-shorter-than-throttle"] else []) ++
+  (if idx.any (fun k => k + 1 < n ∧ (att k).throttle.isNone ∧ ((callAt (k + 1)).1 - finOf k) * c.rfDen > envelopeHiTimesDen c) then ["C05/retry/wait-above-envelope"] else []) ++
+  (if idx.any (fun k => k + 1 < n ∧ (callAt (k + 1)).2 ≠ (att k).rest.getD (callAt k).2) then ["C05/retry/resent-payload-not-remainder"] else []) ++
+  (if n > 0 ∧ !o.isNil ∧ !o.permFlag ∧ !o.sdFlag ∧ c.enabled ∧ ole e.shutdown o.tEnd ∧ o.tEnd > finOf (n - 1) then ["C05/retry/wait-interrupted-by-shutdown-not-classified"] else []) ++
+  (if o.isNil ∧ n > 0 ∧ !(att (n - 1)).ok then ["C05/retry/nil-after-failure"] else []) ++
+  (if !o.isNil ∧ n > 0 ∧ (att (n - 1)).ok then ["C05/retry/error-after-success"] else [])
+
 end OtelVerif.C05
